@@ -65,6 +65,13 @@ class BddMachine(Machine):
         st = St(m, [])
         if label == 'fresh':
             return st
+        if label == 'vars':
+            # every variable node created (in declaration order) and held
+            for n_ in self.names[:self.max_handles]:
+                r = m.var(n_)
+                m.incref(r)
+                st.h.append([r, 1, U.var(n_)])
+            return st
         # build every function of the first two names, hold two, release the rest
         a, b = self.names[0], self.names[1]
         x, y = m.var(a), m.var(b)
@@ -126,17 +133,26 @@ class BddMachine(Machine):
                     for k in idx:
                         if i != j and i != k and j != k or nh < 3:
                             acts.append(('ite', i, j, k))
-        if self.with_let and room:
+        if self.with_let:
             for i in idx:
                 for n in self.names:
-                    acts.append(('let', i, n, True))
+                    if room:
+                        acts.append(('let', i, n, True))
+                    acts.append(('let', i, n, False, 'drop'))
                     for j in idx:
-                        acts.append(('compose', i, n, j))
-        if self.with_quant and room:
+                        if room:
+                            acts.append(('compose', i, n, j))
+                        else:
+                            acts.append(('compose', i, n, j, 'drop'))
+        if self.with_quant:
             for i in idx:
                 for n in self.names:
-                    acts.append(('exist', i, n))
-                    acts.append(('forall', i, n))
+                    if room:
+                        acts.append(('exist', i, n))
+                        acts.append(('forall', i, n))
+                    else:
+                        acts.append(('exist', i, n, 'drop'))
+                        acts.append(('forall', i, n, 'drop'))
         if self.with_refops:
             for i in idx:
                 if h[i][1] < self.max_ext:
@@ -214,26 +230,30 @@ class BddMachine(Machine):
                 raise Violation('ite result denotes the wrong function',
                                 got=U.fmt(den(r)), want=U.fmt(want))
         elif kind == 'let':
-            _, i, n, val = a
+            i, n, val = a[1], a[2], a[3]
             r = m.let({n: val}, h[i][0])
             want = U.restrict(h[i][2], {n: val})
             if check and den(r) != want:
                 raise Violation('let (constants) denotes the wrong function')
-            self._hold(st, r, want)
+            if a[-1] != 'drop':
+                self._hold(st, r, want)
         elif kind == 'compose':
-            _, i, n, j = a
+            i, n, j = a[1], a[2], a[3]
             r = m.let({n: h[j][0]}, h[i][0])
             want = U.compose(h[i][2], {n: h[j][2]})
             if check and den(r) != want:
                 raise Violation('let (compose) denotes the wrong function')
-            self._hold(st, r, want)
+            if a[-1] != 'drop':
+                self._hold(st, r, want)
         elif kind in ('exist', 'forall'):
-            _, i, n = a
+            i, n = a[1], a[2]
             r = m.quantify(h[i][0], {n}, forall=(kind == 'forall'))
             want = U.quantify(h[i][2], [n], kind == 'forall')
             if check and den(r) != want:
-                raise Violation('quantify denotes the wrong function')
-            self._hold(st, r, want)
+                raise Violation('quantify denotes the wrong function',
+                                got=U.fmt(den(r)), want=U.fmt(want))
+            if a[-1] != 'drop':
+                self._hold(st, r, want)
         elif kind == 'incref':
             m.incref(h[a[1]][0])
             h[a[1]][1] += 1
@@ -337,3 +357,23 @@ class BddMachine(Machine):
 
     def unexpected(self, exc, action):
         return 'exception:%s@%s' % (type(exc).__name__, action[0])
+
+
+def mixed_machines(tier):
+    """Histories that MIX operation kinds (connectives incl. implication, ite, quantifiers, let
+    in its forms, collections, swaps) on one manager, every result compared with the model:
+    a result remembered by one kind of operation must never be served to another."""
+    q = tier == 'quick'
+    a = dict(names=('x', 'y', 'z'), max_handles=3, max_ext=1, ops=('and', 'implies', 'xor'),
+             with_ite=False, with_foa=False, with_refops=False, with_reorder=False,
+             with_let=True, with_quant=True, seeds=('vars', 'used'))
+    b = dict(names=('x', 'y'), max_handles=2, max_ext=1, ops=('or', 'implies', 'equiv', 'diff'),
+             with_ite=True, with_foa=False, with_refops=False, with_let=True, with_quant=True,
+             seeds=('vars', 'used', 'warm'))
+    out = []
+    for label, kw, depth in (('mixed3', a, 2 if q else 3), ('mixed2', b, 3 if q else 4)):
+        kw = dict(kw)
+        mm = BddMachine(kw.pop('names'), **kw)
+        mm.name = 'bdd-history/' + label
+        out.append((mm, depth))
+    return out
